@@ -86,3 +86,30 @@ def borrow(ctx, rule_fn, old_id: str, new_id: str, suffix: str = ""):
         if v.rule == old_id:
             v.rule = new_id
     ctx.errors = [e.replace(f"rule={old_id} ", f"rule={new_id} ") for e in ctx.errors]
+
+
+def mypy_crosscheck(ctx):
+    """Thorough tier: compare the resolver's call edges with mypy's receiver types (fail-soft)."""
+    import json
+    import os
+    import subprocess
+    import sys
+
+    ctx.rule("XCHECK", "call-resolution cross-check against mypy (library, types only): every method-call site in the lock-relevant modules where both resolvers know the receiver must agree, and no call that mypy resolves to a lock-acquiring rich method may be missing from the call graph")
+    try:
+        p = subprocess.run([sys.executable, "-m", "sa.mypy_xcheck"], cwd=os.path.dirname(os.path.dirname(os.path.dirname(os.path.abspath(__file__)))),
+                           capture_output=True, text=True, timeout=300)
+        d = json.loads(p.stdout.strip().splitlines()[-1])
+    except Exception as e:
+        ctx.note(f"mypy cross-check skipped: {e!r}")
+        return
+    if not d.get("available"):
+        ctx.note(f"mypy cross-check skipped: {d.get('error')}")
+        return
+    ctx.extra["mypy_crosscheck"] = {k: (v if not isinstance(v, list) else len(v)) for k, v in d.items()}
+    for x in d["disagree"]:
+        ctx.error(f"resolver disagrees with mypy at {x}")
+    for x in d["unresolved_lock_relevant"]:
+        ctx.error(f"lock-relevant call not in the call graph: {x}")
+    if not d["disagree"] and not d["unresolved_lock_relevant"]:
+        ctx.ok("rich/", f"{d['agree']} of {d['sites']} method-call sites resolved by both agree; {d['mypy_only']} resolved only by mypy, none of them lock-relevant; {d['ours_only']} only by the resolver")
